@@ -11,8 +11,10 @@ from ..world import dec, rt
 from . import common as cm
 
 SRC = ["A01", "B01", "A02", "B02"]
-DST = ["A01", "B01", "A02", "A03"]
-VOLS = [0, 10, 70, 120]
+DST = ["A01", "B01", "A02"]
+# 45 and 70 need a different number of steps with the smaller volume having the larger first step;
+# 148.25 splits into three steps just below max_volume (rounding of the step size matters)
+VOLS = [0, 10, 45, 70, 120, 148.25]
 MAXV = 50
 TRIPLES = list(itertools.product(SRC, DST, VOLS))
 
@@ -51,7 +53,7 @@ class Harness(cm.BaseB):
     id = "C07"
     rule = (
         "all ordered lists of (source well, destination well, volume) triples of length <= 2 (thorough: <= 3) over "
-        "4 x 4 x 4 = 64 triples with forced collisions (repeated wells, zero and split volumes, every permutation is "
+        "4 x 3 x 6 = 72 triples with forced collisions (repeated wells, zero and split volumes, every permutation is "
         "a member) x partition_by in {auto, source, destination} x {Evo, Fluent} x source {plate, trough}; a fixed "
         "sub-family of 48 lists x every combination of <= 2 (thorough <= 3) deviations from the default call out of 14 "
         "options (wash schemes, DiTi mode, liquid class, tip as int/Tip/list, rack id/type, label, trough destination); "
@@ -311,17 +313,17 @@ def subfamily():
     fam = []
     idx = {t: i for i, t in enumerate(TRIPLES)}
     picks = [
-        [("A01", "A01", 10)], [("B02", "A03", 120)], [("A02", "B01", 70)], [("B01", "A02", 0)],
-        [("B01", "B01", 70), ("A01", "A01", 10)], [("A02", "A01", 120), ("A01", "A01", 120)], [("B02", "A03", 10), ("B02", "A01", 70)],
-        [("A01", "A03", 0), ("B01", "A02", 120)], [("B02", "B01", 70), ("A01", "B01", 70)], [("A01", "A01", 10), ("A01", "A01", 10)],
-        [("B01", "A03", 120), ("A02", "A02", 10), ("A01", "A01", 70)], [("B02", "A01", 0), ("A02", "A01", 0), ("B01", "B01", 0)],
+        [("A01", "A01", 10)], [("B02", "A02", 120)], [("A02", "B01", 70)], [("B01", "A02", 0)],
+        [("B01", "B01", 70), ("A01", "A01", 45)], [("A02", "A01", 120), ("A01", "A01", 148.25)], [("B02", "A02", 10), ("B02", "A01", 70)],
+        [("A01", "A02", 0), ("B01", "A02", 120)], [("B02", "B01", 70), ("A01", "B01", 70)], [("A01", "A01", 10), ("A01", "A01", 10)],
+        [("B01", "A02", 148.25), ("A02", "A02", 10), ("A01", "A01", 70)], [("B02", "A01", 0), ("A02", "A01", 0), ("B01", "B01", 0)],
     ]
     for p in picks:
         fam.append([idx[t] for t in p])
     k = 0
-    for a in range(0, 64, 7):
-        for b_ in range(3, 64, 11):
-            fam.append([a, b_] if k % 2 else [b_, a, (a + b_) % 64])
+    for a in range(0, 72, 7):
+        for b_ in range(3, 72, 11):
+            fam.append([a, b_] if k % 2 else [b_, a, (a + b_) % 72])
             k += 1
     return fam[:48]
 
